@@ -40,6 +40,7 @@ def parse_overlay(path):
         elif sec[0] == "epilogue": cur["epilogue"] = text
         elif sec[0] == "loop": cur["loops"][sec[1]] = (sec[2], text)
         elif sec[0] == "closure": cur["closures"][sec[1]] = text
+        elif sec[0] == "closure_ghost": cur["closure_ghosts"][sec[1]] = text
         elif sec[0] == "raw": cur["raw"] = text
         buf = []
     defs = {}
@@ -74,7 +75,7 @@ def parse_overlay(path):
             w = ln[3:].split()
             if not w: sec = None; continue
             if w[0] == "item":
-                cur = {"id": w[1], "of": w[1], "header": "", "prologue": "", "epilogue": "", "loops": {}, "closures": {}, "guard": None, "raw": None}
+                cur = {"id": w[1], "of": w[1], "header": "", "prologue": "", "epilogue": "", "loops": {}, "closures": {}, "closure_ghosts": {}, "guard": None, "raw": None}
                 if len(w) >= 4 and w[2] == "of": cur["of"] = w[3]
                 items[w[1]] = cur; order.append(w[1]); sec = None
             elif w[0] in ("header", "prologue", "epilogue", "raw"):
@@ -86,6 +87,8 @@ def parse_overlay(path):
                 sec = ("loop", int(w[1]), it)
             elif w[0] == "closure":
                 sec = ("closure", int(w[1]))
+            elif w[0] == "closure_ghost":
+                sec = ("closure_ghost", int(w[1]))
             elif w[0] == "guard":
                 cur["guard"] = " ".join(w[1:]); sec = None
             elif w[0] == "end":
@@ -313,13 +316,27 @@ def splice_closures(frag, ov, info):
     for k, text in ov["closures"].items():
         if k >= len(cs): raise ExtractError("item %s: overlay names closure %d but the body has %d closures" % (ov["id"], k, len(cs)))
         i, pe, b, e = cs[k]
+        gh = ov["closure_ghosts"].get(k)
+        if gh:
+            # the ghost twin of the closure is passed as one more argument right after it
+            ins.append((e, T(", " + " ".join(gh.split()))))
         if frag[b].s != "{":
             ins.append((e, [Tok("c", "}", None, 0, True)]))
             ins.append((b, [Tok("o", "{", None, 0, True)]))
-        ins.append((pe + 1, T(" ".join(text.split()))))
+        txt = " ".join(text.split())
+        if txt.startswith("|"):
+            # the clause restates the (typed) parameter list: replace `|params|`
+            ins.append((i, "DEL", pe + 1))
+            ins.append((i, T(txt)))
+        else:
+            ins.append((pe + 1, T(txt)))
     info["closures"] = len(cs)
-    for pos, new in sorted(ins, key=lambda x: -x[0]):
-        frag[pos:pos] = new
+    # apply from the right; at equal positions insertions were appended in the order they must appear right-to-left
+    for item in sorted(ins, key=lambda x: -x[0]):
+        if len(item) == 3 and item[1] == "DEL":
+            del frag[item[0]:item[2]]
+        else:
+            frag[item[0]:item[0]] = item[1]
     return frag
 
 def render_item(frag):
@@ -411,7 +428,7 @@ def build_unit(name, canary=None):
                 raise ExtractError("item %s: guard mismatch" % iid)
         frag = splice_closures(frag, ov, info)
         frag = splice_loops(frag, ov, info)
-        wrap = ex.get("impl")
+        wrap = ex.get("emit_impl", ex.get("impl"))
         if wrap: g.add(wrap + " {")
         g.add(hdr)
         g.add("{")
